@@ -78,6 +78,7 @@ class Opts:
         self.open_pct = 8        # ports left without a connection of their own (they must end up referenced)
         self.anon_pref_pct = 25  # anonymous-bundle members that are port references
         self.array_pct = 22
+        self.pref_weight = 14    # weight of a whole-port reference among the kinds of a top-level connection expression
         self.history = False  # C04: an interleaved history of connect / replace / disconnect operations per module
         self.avoid_known = True  # do not construct the triggers of open known findings (counted as redirects)
         for k, v in kw.items():
@@ -173,7 +174,7 @@ class ModGen:
             if o.bundles and any(True for b in self.buns):
                 opts.append(("bref", 35 if o.adversarial_leaf_names else 10))
             if o.prefs and allow_ref and self.ref_targets(w, cur, inner=(depth > 0)):
-                opts.append(("pref", 14 if depth == 0 else 6))
+                opts.append(("pref", o.pref_weight if depth == 0 else 6))
         kind = d.weighted(opts)
         if kind == "sig":
             s = self.sig_of_width(lambda x: x == w, lambda: w)
@@ -425,7 +426,7 @@ class ModGen:
                     "bundle": p[2] if p[0] == "bun" else None, "plan": pl, "done": False, "has_ref": False}
         tag0 = self.midx * 100
         for ii, (inst, iface) in enumerate(plan):
-            inst["tag"] = tag0 + ii + 1
+            inst["tag"] = tag0 + ii  # the first tag is 0: a parameter value that is falsy yet set
             order = list(iface)
             for p in order:
                 key = (inst["name"], p[1])
@@ -514,7 +515,16 @@ class ModGen:
                         # the template instance of a later `n * inst` holds a reference - preferably to a port that ends up
                         # no-connected - when it is multiplied
                         tg = self.ref_targets(p[2], key, inner=False)
-                        tg = [t for t in tg if self.portinfo[(t[0], t[1])]["plan"] == "nc"] or tg
+                        if d.bool(50):
+                            tg = [t for t in tg if self.portinfo[(t[0], t[1])]["plan"] == "nc"] or tg
+                        else:
+                            # ... or to a port that live references of member instances point at too (a reference-only net first),
+                            # best of all one whose referrers are referenced in turn
+                            live = {(i_["name"], pn_): (e_[1], e_[2]) for i_ in self.insts for pn_, e_ in i_["conns"] if e_[0] == "pref"}
+                            live_t = set(live.values())
+                            chained = {t_ for s_, t_ in live.items() if s_ in live_t}
+                            tg = ([t for t in tg if (t[0], t[1]) in chained] or [t for t in tg if (t[0], t[1]) in live_t and self.portinfo[(t[0], t[1])]["plan"] == "open"]
+                                  or [t for t in tg if (t[0], t[1]) in live_t] or tg)
                         if tg:
                             t = d.choice(tg)
                             e = ["pref", t[0], t[1]]
